@@ -48,6 +48,14 @@ def gen_cases(tier, seed):
             yield ("hangul-LV", [l, v])
             for t in (range(0x11A8, 0x11C3) if tier == "thorough" else (0x11A8, 0x11B7, 0x11C2)):
                 yield ("hangul-LVT", [l, v, t])
+    # boundaries of the algorithmic ranges: the jamo just outside L / V / T (U+11A7 is an assigned vowel, not a trailing consonant)
+    edge = [0x10FF, 0x1100, 0x1112, 0x1113, 0x115F, 0x1160, 0x1161, 0x1175, 0x1176, 0x11A7, 0x11A8, 0x11C2, 0x11C3, 0xABFF, 0xAC00, 0xAC1C, 0xD7A3, 0xD7A4, 0xD7B0]
+    for a in edge:
+        for b in edge:
+            if assigned(a) and assigned(b):
+                yield ("hangul-boundary", [a, b])
+                for c3 in (0x11A7, 0x11A8, 0x11C2, 0x11C3, 0x1161):
+                    yield ("hangul-boundary", [a, b, c3])
     for s in range(0xAC00, 0xD7A4, 1 if tier == "thorough" else 7):
         yield ("hangul-syllable", [s])
     # every (starter, mark) pair that has a primary composite, and the composition exclusions
